@@ -6,9 +6,16 @@ INV = ["Exclusive", "Serial", "Consecutive", "NoDup", "ClockExact", "Released", 
 STOP, NSTEPS = 3, 2
 
 
+ERR_BODIES = {     # kind "err/<variant>": (endpoint, raw body) the handler rejects
+    "step-badjson": ("run-step", '{"settings": '), "step-nosettings": ("run-step", '{}'),
+    "steps-badjson": ("run-steps", '{"numberSteps": 2, '), "steps-nonumber": ("run-steps", '{"settings": {}}'), "steps-nosettings": ("run-steps", '{"numberSteps": 2}'),
+    "stream-badjson": ("stream-steps", '{"settings"'), "stream-nosettings": ("stream-steps", '{}'),
+}
+
+
 def cons(kinds, dev='{}', abort=None):
     rs = "abc"[:len(kinds)]
-    K = " @@ ".join('"%s" :> "%s"' % (r, k) for r, k in zip(rs, kinds))
+    K = " @@ ".join('"%s" :> "%s"' % (r, k.split("/")[0]) for r, k in zip(rs, kinds))
     A = " @@ ".join('"%s" :> %d' % (r, (abort or {}).get(r, 0)) for r in rs)
     return dict(Reqs="{" + ",".join('"%s"' % r for r in rs) + "}", Kind="(" + K + ")", Abort="(" + A + ")",
                 N=str(NSTEPS), Stop=str(STOP), Dev=dev)
@@ -28,7 +35,7 @@ def times_of(body):
     return out
 
 
-def execute(kinds, abort, schedule):
+def execute(kinds, abort, schedule, fine=False):
     """run the requests of the given kinds on a fresh session under the forced schedule;
     returns (events, outcome dict)"""
     srv = S.Srv(stop=STOP, adapter=False, base_constants=True)
@@ -42,11 +49,16 @@ def execute(kinds, abort, schedule):
             st = inst.session_state
             return bool(st["lock"]), int(round(float(st["step"])))
         ctl = sched.Controller(probe)
+        inst.session_state = sched.TracedState(inst.session_state, ctl)
 
         def mk(rid, kind):
             def fn():
                 cl = srv.app.test_client()
                 hdr = dict(content_type="application/json")
+                if kind.startswith("err/"):
+                    endpoint, body = ERR_BODIES[kind[4:]]
+                    r = cl.post("/%s/%s" % (uid, endpoint), data=body, **hdr)
+                    return r.status_code, r.get_data(as_text=True)
                 if kind == "step":
                     r = cl.post("/%s/run-step" % uid, data=json.dumps({"settings": {}}), **hdr)
                     return r.status_code, r.get_data(as_text=True)
@@ -72,9 +84,10 @@ def execute(kinds, abort, schedule):
                 return r.status_code, body
             return fn
         rs = "abc"[:len(kinds)]
+        ctl.no_loop = {rid for rid, kind in zip(rs, kinds) if kind.startswith("err/")}
         for rid, kind in zip(rs, kinds):
             ctl.spawn(rid, mk(rid, kind))
-        ctl.run(schedule)
+        ctl.run(schedule, fine)
         out = {"resp": {}, "errors": {}}
         for rid, w in ctl.workers.items():
             if w.error is not None:
@@ -141,6 +154,10 @@ def run(tier, replay_file=None):
     KINDS = ["step", "steps", "stream"]
     combos = [(k, {}) for k in itertools.product(KINDS, repeat=2)]
     combos += [(("stream", "step"), {"a": 1}), (("stream", "steps"), {"a": 2}), (("stream", "stream"), {"a": 1})]
+    # requests whose body the handler rejects, alone and next to a well-formed stepping request
+    errs = sorted(ERR_BODIES)
+    combos += [(("err/" + v,), {}) for v in errs]
+    combos += [(("err/" + v, KINDS[i % 3]), {}) for i, v in enumerate(errs)] + [((KINDS[(i + 1) % 3], "err/" + v), {}) for i, v in enumerate(errs)]
     triples = [(("steps", "stream", "step"), {"b": 1}), (("step", "step", "steps"), {}), (("stream", "steps", "steps"), {})]
     if not quick:
         triples += [(k, {}) for k in itertools.product(KINDS, repeat=3)]
@@ -165,15 +182,23 @@ def run(tier, replay_file=None):
     n_sched = 0
     for kinds, abort, scheds in plans:
         cap = (12 if len(kinds) == 2 else 8) if quick else (80 if len(kinds) == 2 else 40)
+        if quick and any(k.startswith("err/") for k in kinds):
+            cap = 4
         pick = scheds if len(scheds) <= cap else rng.sample(scheds, cap)
         traces = []
-        for sc in pick:
-            events, out = execute(kinds, abort, list(sc))
+        runs = [(list(sc), False) for sc in pick]
+        if len(kinds) == 2 and not any(k.startswith("err/") for k in kinds) and not abort:
+            # line-level preemption INSIDE try_lock for the first two stepping requests a fresh session sees:
+            # a runs i lines, b runs j lines, then they alternate line by line
+            rng2 = range(0, 4) if quick else range(0, 7)
+            runs += [(["a"] * i + ["b"] * j, True) for i in rng2 for j in rng2]
+        for sc, fine in runs:
+            events, out = execute(kinds, abort, list(sc), fine)
             n_sched += 1
             R.add("traces_validated_against_impl")
             bad = judge(kinds, events, out)
             if bad:
-                R.violation(bad[0][0], {"kinds": kinds, "abort": abort, "schedule": list(sc), "detail": bad[0][1],
+                R.violation(bad[0][0], {"kinds": kinds, "abort": abort, "schedule": list(sc), "lines_inside_try_lock_are_steps": fine, "detail": bad[0][1],
                                         "more": [b[0] for b in bad[1:4]], "events": events, "responses": out["resp"]})
             traces.append(events)
             if len(R.violations) >= 12:
@@ -192,7 +217,7 @@ def run(tier, replay_file=None):
                 R.violation("recorded trace is not a behaviour of StepLock (%s)" % tv.violation,
                             {"kinds": kinds, "abort": abort, "unexplained_event_index": li,
                              "unexplained_event": traces[t - 1][li - 1] if li <= len(traces[t - 1]) else "trace ended with unfinished requests",
-                             "schedule": list(pick[t - 1]), "events": traces[t - 1], "tlc": tv.trace[-600:]})
+                             "schedule": list(runs[t - 1][0]), "lines_inside_try_lock_are_steps": runs[t - 1][1], "events": traces[t - 1], "tlc": tv.trace[-600:]})
         if len(R.violations) >= 12:
             break
     R.cov["schedules_forced"] = n_sched
